@@ -25,13 +25,44 @@ def _arr(a):
     return (a.dtype.str, a.shape, a.tobytes())
 
 
+def _generic(v, depth=0):
+    """canonical form of an attribute value the explorer knows nothing about"""
+    if isinstance(v, np.ndarray):
+        return ("nd",) + _arr(v)
+    if isinstance(v, (bool, int, float, str, bytes, type(None), np.generic)):
+        return repr(v)
+    if isinstance(v, dict):
+        return ("dict", tuple(sorted((repr(k), _generic(x, depth + 1)) for k, x in v.items())))
+    if isinstance(v, (list, tuple, set, frozenset)):
+        items = [_generic(x, depth + 1) for x in v]
+        return (type(v).__name__, tuple(sorted(items, key=repr)) if isinstance(v, (set, frozenset)) else tuple(items))
+    if depth < 2 and hasattr(v, "__dict__"):
+        return (type(v).__name__, tuple(sorted((k, _generic(x, depth + 1)) for k, x in vars(v).items())))
+    return type(v).__name__
+
+
+def extra_attrs(obj, known):
+    """instance attributes outside the documented hidden state (a cache or flag added by a change to the library): hashed too, so that
+    two states that differ only there are not merged"""
+    try:
+        return tuple(sorted((k, _generic(v)) for k, v in vars(obj).items() if k not in known))
+    except Exception:  # noqa: BLE001  (no __dict__)
+        return ()
+
+
+SHAPE_KNOWN = {"_codes", "_step", "empty_removed", "_dtype", "starts", "lengths", "col_step"}
+RAGGED_KNOWN = {"_RaggedBase__data", "_data", "_shape", "is_contigous", "_size", "_safe_mode", "_dtype"}
+TABLE_KNOWN = {"_keys", "_values", "_mod", "_key_dtype", "_value_dtype", "_safe_mode", "dtype"}
+
+
 def canon_shape(sh):
     t = type(sh).__name__
+    x = extra_attrs(sh, SHAPE_KNOWN)
     if hasattr(sh, "_codes"):
         return (t, _arr(sh._codes), getattr(sh, "_step", None), bool(getattr(sh, "empty_removed", False)),
-                str(getattr(sh, "_dtype", None)))
+                str(getattr(sh, "_dtype", None)), x)
     if hasattr(sh, "starts") and hasattr(sh, "lengths"):
-        return (t, _arr(sh.starts), _arr(sh.lengths), getattr(sh, "col_step", None), str(getattr(sh, "_dtype", None)))
+        return (t, _arr(sh.starts), _arr(sh.lengths), getattr(sh, "col_step", None), str(getattr(sh, "_dtype", None)), x)
     return (t, repr(sh))
 
 
@@ -58,7 +89,7 @@ def _canon_ragged(x, scope=()):
         od = _buf(o)
         share.append((bool(od is not None and np.shares_memory(d, od)), getattr(o, "_shape", None) is sh, o is x))
     return ("RA", canon_shape(sh), _arr(d), d.strides, bool(getattr(x, "is_contigous", True)),
-            getattr(x, "_size", None), bool(getattr(x, "_safe_mode", True)), tuple(share))
+            getattr(x, "_size", None), bool(getattr(x, "_safe_mode", True)), tuple(share), extra_attrs(x, RAGGED_KNOWN))
 
 
 def shape_class(x):
@@ -76,7 +107,7 @@ def canon_table(t):
             vv = ("arr", canon_ragged(vals, scope=(keys,)))
         else:
             vv = ("scalar", type(vals).__name__, repr(vals))
-        return (type(t).__name__, kv, vv, repr(t._mod), str(t._key_dtype), str(t._value_dtype), bool(t._safe_mode))
+        return (type(t).__name__, kv, vv, repr(t._mod), str(t._key_dtype), str(t._value_dtype), bool(t._safe_mode), extra_attrs(t, TABLE_KNOWN))
     except Exception:  # noqa: BLE001
         FALLBACKS += 1
         return ("fallback", type(t).__name__)
